@@ -648,4 +648,376 @@ def item_verify_bucket(repo, out):
     out.append('Definition c20_get_chunk_verifies_on_404 : bool := %s.' % ('true' if ok else 'false'))
 
 
-ITEMS = [item_sites, item_discipline, item_pool, item_sensor_flow, item_props, item_verify_bucket]
+# ------------------------------------------------------------------------------------------- state that outlives a call
+# (strengthening round) The functions that dask worker threads execute, and the functions behind the accesses the property
+# names, are inventoried for every write to an object they did not create themselves (fixtures/sharedwrites.py).  Each
+# site must be on the list below, next to the model / theorem that covers it; anything else is a broken obligation
+# (C20_shared_writes_modelled) and the harness searches for a failing schedule around the new site.
+
+INVENTORY_FILES = ['katdal/applycal.py', 'katdal/vis_flags_weights.py', 'katdal/chunkstore.py', 'katdal/chunkstore_s3.py',
+                   'katdal/chunkstore_npy.py', 'katdal/lazy_indexer.py', 'katdal/sensordata.py', 'katdal/spectral_window.py']
+
+SETUP = 'setup: runs while the data set / store is being constructed or re-selected by its owner, not a first-time access'
+ALLOWED = {
+    # --- applycal.py
+    'applycal.py:add_applycal_sensors:set:cache.virtual[template]': SETUP,
+    'applycal.py:add_applycal_sensors:default:gaincal_flux': 'a default that is only read',
+    'applycal.py:add_applycal_sensors.<locals>.calc_correction_per_input:set:cache[name]':
+        'virtual sensor function: store under the sensor cache lock (C20_sensor_created_once, C20_virtual_functions_fit)',
+    'applycal.py:_correction_inputs_to_corrprods:set:g_per_cp[i, j]':
+        'output parameter; every caller passes an array it has just made (c20_outparam_callers_fresh)',
+    'applycal.py:calc_correction:set:data[j]': SETUP + ' (fills the list made two lines earlier)',
+    # --- vis_flags_weights.py
+    'vis_flags_weights.py:_apply_data_lost:aug:flags[slices]':
+        'copy on first write: `flags` is re-bound to orig_flags.copy() before (c20_copy_on_write_ok)',
+    'vis_flags_weights.py:weight_power_scale:set:out[i, j, k]':
+        'output parameter, None in the graphs katdal builds (c20_outparam_callers_fresh)',
+    # --- chunkstore_s3.py
+    "chunkstore_s3.py:_BearerAuth.__call__:set:r.headers['Authorization']": 'the prepared request of this very call',
+    "chunkstore_s3.py:_AWSAuth.__call__:set:r.headers['Authorization']": 'the prepared request of this very call',
+    'chunkstore_s3.py:_CacheSettingsSession.merge_environment_settings:set:self._cached_settings':
+        'state of a session: one request at a time (C20_request_sessions_exclusive); the cached value is a constant',
+    'chunkstore_s3.py:_Pool.get:call:self._pool.pop()': 'pool under its lock (C20_pool_exclusive, C20_lock_discipline)',
+    'chunkstore_s3.py:_Pool.put:call:self._pool.append()': 'pool under its lock (C20_pool_exclusive, C20_lock_discipline)',
+    'chunkstore_s3.py:_Pool.__call__:call:self.put()': 'pool under its lock (pool_call_code)',
+    'chunkstore_s3.py:S3ChunkStore.__init__.<locals>.session_factory:call:session.mount()':
+        'the session the factory is making (parts attached to it: c20_session_shared_parts, c20_adapter_per_session)',
+    'chunkstore_s3.py:S3ChunkStore.__init__.<locals>.session_factory:set:session.auth':
+        'the session the factory is making (parts attached to it: c20_session_shared_parts)',
+    'chunkstore_s3.py:S3ChunkStore.request:set:adapter.max_retries':
+        'the retry budget slot of the adapter of the borrowed session (C20_retry_budget_private)',
+    'chunkstore_s3.py:S3ChunkStore._verify_bucket:call:self._verified_buckets.add()': 'C20_verified_buckets_safe',
+    # --- lazy_indexer.py
+    'lazy_indexer.py:dask_getitem:set:out.dask': 'the dask collection made by x[indices] three lines earlier',
+    'lazy_indexer.py:LazyIndexer.__getitem__:set:out_data[out_select]': 'h5 LazyIndexer (v1-v3 files): no first-time state',
+    'lazy_indexer.py:DaskLazyIndexer.dataset:set:self._orig_dataset': 'lazy initialisation under the lock (C20_site_dask)',
+    'lazy_indexer.py:DaskLazyIndexer.dataset:set:self._dataset': 'lazy initialisation under the lock (C20_site_dask)',
+    'lazy_indexer.py:DaskLazyIndexer.get:set:target[...]':
+        'output stage: distinct cells (C20_store_order_independent), arrays made by the call or passed as out=',
+    # --- sensordata.py
+    'sensordata.py:SensorCache.__init__:default:virtual': 'mutable default; every data set class passes its own dict',
+    'sensordata.py:SensorCache.__init__:default:aliases': 'a default that is only read',
+    'sensordata.py:SensorCache._set_keep:set:self.keep': SETUP + ' (select)',
+    'sensordata.py:SensorCache._get_props:call:props.update()': 'property map under the cache lock (C20_props_locked_safe)',
+    'sensordata.py:SensorCache._get_props:call:prop_map.setdefault()': 'property map under the cache lock (C20_props_locked_safe)',
+    'sensordata.py:SensorCache.add_aliases:set:self._raw[name.replace(original, alias)]': SETUP + ' (NV list)',
+    'sensordata.py:SensorCache.get:set:self._raw[name]': 'sensor cache under its lock (C20_site_sensor_get, C20_sensor_created_once)',
+    'sensordata.py:SensorCache.get:set:self.timestamps': 'sensor cache under its lock (C20_site_sensor_get: source `timestamps`)',
+    'sensordata.py:SensorCache.__setitem__:set:self._raw[key]': 'sensor cache under its lock (sensor_setitem_locked)',
+    'sensordata.py:SensorCache.__delitem__:del:self._raw[key]': 'sensor cache under its lock (sensor_delitem_locked)',
+    # --- spectral_window.py
+    'spectral_window.py:SpectralWindow.channel_freqs:set:self._channel_freqs': 'lazy initialisation under the lock (C20_site_spw)',
+}
+# functions that dask puts into the graph of a load (block functions): their statements are classified for
+# C20_worker_functions_per_call_state
+WORKER_FUNCTIONS = [('katdal/applycal.py', '_correction_block'), ('katdal/applycal.py', 'calc_correction_per_corrprod'),
+                    ('katdal/applycal.py', '_correction_inputs_to_corrprods'), ('katdal/applycal.py', 'apply_vis_correction'),
+                    ('katdal/applycal.py', 'apply_weights_correction'), ('katdal/applycal.py', 'apply_flags_correction'),
+                    ('katdal/vis_flags_weights.py', '_default_zero'), ('katdal/vis_flags_weights.py', '_apply_data_lost'),
+                    ('katdal/vis_flags_weights.py', '_narrow'), ('katdal/vis_flags_weights.py', 'weight_power_scale')]
+K_READ, K_RET_FRESH, K_LOCAL, K_RET_SHARED, K_WRITE, K_WRITE_MODELLED, K_RET_ARG = 1, 3, 4, 5, 6, 7, 8
+
+
+def inventory(repo):
+    from fixtures import sharedwrites as sw
+    sites = []
+    for rel in INVENTORY_FILES:
+        sites += sw.file_sites(repo, rel)
+    return sites
+
+
+def unmodelled_sites(repo):
+    return [s for s in inventory(repo) if not s.construction and s.ident not in ALLOWED]
+
+
+def _is_noise(s):
+    """a docstring / bare string, or a call that only reports: logger.debug(...), logging.info(...), warnings.warn(...)"""
+    if isinstance(s, ast.Expr) and isinstance(s.value, ast.Constant):
+        return True
+    if isinstance(s, ast.Expr) and isinstance(s.value, ast.Call):
+        from fixtures.sharedwrites import dotted
+        d = dotted(s.value.func) or ''
+        return d.split('.')[0] in ('logger', 'logging', 'log', '_logger', 'warnings') and \
+            d.split('.')[-1] in ('debug', 'info', 'warning', 'warn', 'error', 'exception', 'critical', 'log')
+    return False
+
+
+def _strip_noise(body):
+    return [s for s in body if not _is_noise(s)]
+
+
+def _own_statements(fn):
+    """the statements of a function in source order, compound statements contributing their header; nested defs, docstrings
+    and logging calls skipped"""
+    out = []
+
+    def block(stmts):
+        for s in stmts:
+            if isinstance(s, (ast.FunctionDef, ast.AsyncFunctionDef, ast.ClassDef)):
+                continue
+            if _is_noise(s):
+                continue                    # docstring, log message
+            out.append(s)
+            for field in ('body', 'orelse', 'finalbody'):
+                b = getattr(s, field, None)
+                if isinstance(b, list) and b and isinstance(b[0], ast.stmt):
+                    block(b)
+            for h in getattr(s, 'handlers', []):
+                block(h.body)
+    block(fn.body)
+    return out
+
+
+def _header_nodes(s):
+    """the expressions evaluated by the statement itself (not by the statements nested in it)"""
+    if isinstance(s, (ast.If, ast.While)):
+        return [s.test]
+    if isinstance(s, (ast.For, ast.AsyncFor)):
+        return [s.target, s.iter]
+    if isinstance(s, (ast.With, ast.AsyncWith)):
+        return [x for i in s.items for x in (i.context_expr, i.optional_vars) if x is not None]
+    if isinstance(s, ast.Try):
+        return []
+    return [s]
+
+
+def worker_skeleton(repo, rel, fname):
+    from fixtures import sharedwrites as sw
+    tree = _parse(repo, rel)
+    fns = [n for n in tree.body if isinstance(n, ast.FunctionDef) and n.name == fname]
+    if len(fns) != 1:
+        raise TranslateError('%s: expected exactly one module-level function %s' % (rel, fname))
+    fn = fns[0]
+    sc = sw.Scope(fn)
+    sites = sw.function_sites(fn, fname, rel, False, sw.module_names(tree))
+    by_line = {}
+    for st in sites:
+        by_line.setdefault(st.line, []).append(st)
+    code = []
+    for s in _own_statements(fn):
+        if isinstance(s, (ast.Global, ast.Nonlocal)):
+            code.append(K_WRITE)
+            continue
+        if isinstance(s, (ast.Pass, ast.Break, ast.Continue, ast.Import, ast.ImportFrom)):
+            continue
+        if isinstance(s, ast.Raise):
+            code.append(K_LOCAL)            # (what the message says is irrelevant)
+            continue
+        here = []
+        for h in _header_nodes(s):
+            lines = {getattr(n, 'lineno', None) for n in ast.walk(h)}
+            here += [st for ln in lines if ln in by_line for st in by_line[ln] if st.kind not in ('decorator', 'default')]
+        if isinstance(s, (ast.If, ast.While, ast.For, ast.With, ast.Try)):
+            # (a site on the header line of a compound statement that belongs to a nested simple statement on the same line)
+            here = [st for st in here if st.line == s.lineno]
+        if here:
+            code.append(K_WRITE_MODELLED if all(st.ident in ALLOWED for st in here) else K_WRITE)
+            continue
+        if isinstance(s, ast.Return):
+            v = s.value
+            if v is None or sc.fresh_expr(v):
+                code.append(K_RET_FRESH)
+            else:
+                if isinstance(v, ast.Name) and (v.id in sc.params or all(
+                        b is not None and ((isinstance(b, ast.Name) and b.id in sc.params) or sc.fresh_expr(b))
+                        for b in sc.bindings.get(v.id, [None]))):
+                    code.append(K_RET_ARG)      # hands back (an alias / a copy of) what the caller passed in
+                else:
+                    code.append(K_RET_SHARED)
+            continue
+        reads = False
+        for h in _header_nodes(s):
+            for n in ast.walk(h):
+                if isinstance(n, ast.Attribute) and isinstance(n.ctx, ast.Load) and not sc.fresh_expr(n) \
+                        and n.attr not in sw.SCALAR_ATTRS:
+                    reads = True
+                elif isinstance(n, ast.Name) and isinstance(n.ctx, ast.Load) and n.id in sc.params:
+                    reads = True
+        code.append(K_READ if reads else K_LOCAL)
+    return code
+
+
+def _outparam_callers_fresh(repo):
+    """the functions that write into one of their parameters (allowed sites labelled 'output parameter'): every call of
+    them in the inventoried files passes a fresh object in that position (or nothing)"""
+    from fixtures import sharedwrites as sw
+    outs = {}          # function name -> parameter name
+    for ident, label in ALLOWED.items():
+        if label.startswith('output parameter'):
+            base, qual, kind, text = ident.split(':', 3)
+            outs[qual] = text.split('[')[0]
+    ok = True
+    found = 0
+    for rel in INVENTORY_FILES:
+        tree = _parse(repo, rel)
+        defs = {n.name: n for n in ast.walk(tree) if isinstance(n, ast.FunctionDef)}
+        for fn in [n for n in ast.walk(tree) if isinstance(n, (ast.FunctionDef, ast.AsyncFunctionDef))]:
+            sc = None
+            for n in sw.own_nodes(fn):
+                if not isinstance(n, ast.Call):
+                    continue
+                d = sw.dotted(n.func)
+                # direct call f(...), or the function handed to dask: da.blockwise(f, ...), da.map_blocks(f, ...)
+                target, args, kws = None, n.args, n.keywords
+                if d in outs:
+                    target = d
+                elif n.args and isinstance(n.args[0], ast.Name) and n.args[0].id in outs and d is not None:
+                    target, args = n.args[0].id, None          # in a graph: positional arguments are dask arrays (per-task blocks)
+                if target is None or target not in defs:
+                    continue
+                found += 1
+                sc = sc or sw.Scope(fn)
+                params = [a.arg for a in defs[target].args.args]
+                pos = params.index(outs[target])
+                given = None
+                if args is not None and len(args) > pos:
+                    given = args[pos]
+                for kw in kws:
+                    if kw.arg == outs[target]:
+                        given = kw.value
+                if given is not None and not (isinstance(given, ast.Constant) and given.value is None) \
+                        and not sc.fresh_expr(given):
+                    ok = False
+    return ok and found > 0
+
+
+def _copy_on_write_ok(repo):
+    """vis_flags_weights._apply_data_lost: `flags = orig_flags` ... `if flags is orig_flags: flags = orig_flags.copy()`
+    immediately before the only write `flags[slices] |= ...`"""
+    rel = 'katdal/vis_flags_weights.py'
+    fn = _func(_parse(repo, rel), '_apply_data_lost', rel)
+    writes = [n for n in ast.walk(fn) if isinstance(n, ast.AugAssign) and isinstance(n.target, ast.Subscript)]
+    if len(writes) != 1 or not isinstance(writes[0].target.value, ast.Name):
+        return False
+    name = writes[0].target.value.id
+    for n in ast.walk(fn):
+        for field in ('body', 'orelse'):
+            b = getattr(n, field, None)
+            if isinstance(b, list) and writes[0] in b:
+                i = b.index(writes[0])
+                if i == 0 or not isinstance(b[i - 1], ast.If):
+                    return False
+                g = b[i - 1]
+                return (ast.unparse(g.test) == '%s is orig_flags' % name and not g.orelse
+                        and [ast.unparse(x) for x in g.body] == ['%s = orig_flags.copy()' % name])
+    return False
+
+
+def item_shared_writes(repo, out):
+    sites = [s for s in inventory(repo) if not s.construction]
+    idents = sorted({s.ident for s in sites})
+    unknown = [i for i in idents if i not in ALLOWED]
+    out.append('Definition c20_shared_write_sites : list string := %s.' % coq_strings(idents))
+    out.append('Definition c20_shared_writes_unmodelled : list string := %s.   (* sites that no model covers *)'
+               % coq_strings(unknown))
+    out.append('Definition c20_outparam_callers_fresh : bool := %s.' % ('true' if _outparam_callers_fresh(repo) else 'false'))
+    out.append('Definition c20_copy_on_write_ok : bool := %s.' % ('true' if _copy_on_write_ok(repo) else 'false'))
+    skels = [('%s.%s' % (rel.split('/')[-1][:-3], fname), worker_skeleton(repo, rel, fname)) for rel, fname in WORKER_FUNCTIONS]
+    out.append('Definition c20_worker_fn_skeletons : list (string * list Z) := [%s].   (* per statement: 1 reads state that '
+               'outlives the call 3 returns a fresh object 4 call-local 5 returns (part of) a shared object 6 writes to state '
+               'that outlives the call 7 a write that is modelled (output parameter, copy on write) 8 returns an argument *)'
+               % '; '.join('("%s"%%string, [%s])' % (nm, '; '.join('(%d)%%Z' % c for c in code)) for nm, code in skels))
+    # the graph of the applycal corrections: one CorrectionParams object is baked into every block (it IS shared)
+    rel = 'katdal/applycal.py'
+    cc = _func(_parse(repo, rel), 'calc_correction', rel)
+    baked = [ast.unparse(n) for n in ast.walk(cc) if isinstance(n, ast.Call) and ast.unparse(n.func) == 'da.map_blocks'
+             and n.args and ast.unparse(n.args[0]) == '_correction_block'
+             and any(k.arg == 'params' and ast.unparse(k.value) == 'params' for k in n.keywords)]
+    if len(baked) != 1:
+        raise TranslateError('calc_correction: expected one da.map_blocks(_correction_block, ..., params=params)')
+
+
+def item_session_parts(repo, out):
+    """what the pooled sessions have in common: everything the session factory attaches to the session it makes that
+    the factory did not make itself; the adapter (whose `max_retries` is the per-request retry budget slot)"""
+    from fixtures import sharedwrites as sw
+    rel = 'katdal/chunkstore_s3.py'
+    st = _class(_parse(repo, rel), 'S3ChunkStore', rel)
+    init = _func(st, '__init__', rel)
+    facs = [n for n in init.body if isinstance(n, ast.FunctionDef) and n.name == 'session_factory']
+    if len(facs) != 1:
+        raise TranslateError('S3ChunkStore.__init__: expected one nested function session_factory')
+    fac = facs[0]
+    sc = sw.Scope(fac)
+    rets = [n for n in ast.walk(fac) if isinstance(n, ast.Return)]
+    if len(rets) != 1 or not isinstance(rets[0].value, ast.Name):
+        raise TranslateError('session_factory: expected a single `return <name>`')
+    sess = rets[0].value.id
+    if not sc.name_fresh(sess):
+        raise TranslateError('session_factory: the session it returns is not made by the call')
+    shared, adapters = [], []
+    for s in _own_statements(fac):
+        if isinstance(s, ast.Return):
+            continue
+        if isinstance(s, ast.Assign) and len(s.targets) == 1:
+            t = s.targets[0]
+            if isinstance(t, ast.Name):
+                if t.id == sess:
+                    # the constructor arguments of the session
+                    shared += [ast.unparse(a) for a in (s.value.args if isinstance(s.value, ast.Call) else [])
+                               if not sc.fresh_expr(a)]
+                continue                        # a local of the factory
+            root, links = sw.chain_of(t)
+            if isinstance(root, ast.Name) and root.id == sess:
+                if not sc.fresh_expr(s.value):
+                    shared.append(ast.unparse(s.value))
+                continue
+        if isinstance(s, ast.Expr) and isinstance(s.value, ast.Call) and isinstance(s.value.func, ast.Attribute):
+            root, links = sw.chain_of(s.value.func.value)
+            if isinstance(root, ast.Name) and root.id == sess:
+                for a in list(s.value.args) + [k.value for k in s.value.keywords]:
+                    if not sc.fresh_expr(a):
+                        shared.append(ast.unparse(a))
+                if s.value.func.attr == 'mount' and len(s.value.args) == 2:
+                    adapters.append(s.value.args[1])
+                continue
+        raise TranslateError('session_factory: unsupported statement %s' % ast.unparse(s).split('\n')[0])
+    per_session = False
+    if len(adapters) == 1 and isinstance(adapters[0], ast.Name) and sc.name_fresh(adapters[0].id):
+        binds = sc.bindings.get(adapters[0].id, [])
+        per_session = bool(binds) and all(isinstance(b, ast.Call) and (sw.dotted(b.func) or '').endswith('HTTPAdapter')
+                                          for b in binds)
+    out.append('Definition c20_session_shared_parts : list string := %s.   (* attached to every pooled session, not made by '
+               'the factory *)' % coq_strings(sorted(set(shared))))
+    out.append('Definition c20_adapter_per_session : bool := %s.   (* session.mount(url, HTTPAdapter()) with the adapter made '
+               'inside the factory *)' % ('true' if per_session else 'false'))
+    # the shared authentication handler keeps no state of its own after construction
+    auth_writes = sorted({s.ident for s in sw.file_sites(repo, rel) if not s.construction
+                          and s.qual.split('.')[0] in ('_BearerAuth', '_AWSAuth') and s.text.startswith('self')})
+    out.append('Definition c20_auth_state_writes : list string := %s.' % coq_strings(auth_writes))
+    # request(): adapter = <borrowed session>.get_adapter(url); in the retry loop the budget is stored in the adapter
+    # BEFORE every attempt is sent
+    req = _func(st, 'request', rel)
+    borrowed = None
+    for n in ast.walk(req):
+        if isinstance(n, ast.With):
+            for i in n.items:
+                if ast.unparse(i.context_expr) == 'self._session_pool()' and isinstance(i.optional_vars, ast.Name):
+                    borrowed = (i.optional_vars.id, n)
+    sets_first = False
+    if borrowed is not None:
+        name, w = borrowed
+        body = _strip_noise(w.body)
+        ad = None
+        for s in body:
+            if isinstance(s, ast.Assign) and len(s.targets) == 1 and isinstance(s.targets[0], ast.Name) \
+                    and ast.unparse(s.value) == '%s.get_adapter(url)' % name:
+                ad = s.targets[0].id
+        loops = [s for s in body if isinstance(s, ast.While)]
+        if ad is not None and len(loops) == 1:
+            lb = _strip_noise(loops[0].body)
+            sends = [n for n in ast.walk(loops[0]) if isinstance(n, ast.Call) and isinstance(n.func, ast.Name)
+                     and n.func.id == '_request']
+            sets = [n for n in ast.walk(req) if isinstance(n, ast.Assign)
+                    and any(isinstance(t, ast.Attribute) and t.attr == 'max_retries' for t in n.targets)]
+            sets_first = (bool(lb) and ast.unparse(lb[0]) == '%s.max_retries = retries' % ad and len(sets) == 1
+                          and len(sends) == 1 and sends[0].lineno > lb[0].lineno
+                          and not any(isinstance(n, ast.Assign) and any(isinstance(t, ast.Name) and t.id == ad for t in n.targets)
+                                      for n in ast.walk(loops[0])))
+    out.append('Definition c20_request_sets_budget_first : bool := %s.   (* adapter.max_retries = retries opens every '
+               'iteration of the retry loop, adapter = session.get_adapter(url) of the borrowed session *)'
+               % ('true' if sets_first else 'false'))
+
+
+ITEMS = [item_sites, item_discipline, item_pool, item_sensor_flow, item_props, item_verify_bucket,
+         item_shared_writes, item_session_parts]
